@@ -259,3 +259,32 @@ func TestScryptVectors(t *testing.T) {
 		t.Errorf("scrypt vector 2: %s", got)
 	}
 }
+
+func TestParsePath(t *testing.T) {
+	good := map[string][]uint32{
+		"m":                 nil,
+		"m/0":               {0},
+		"m/44'/0'/0'/0/5":   {44 + Hardened, Hardened, Hardened, 0, 5},
+		"m/044'/00084h/010": {44 + Hardened, 84 + Hardened, 10},
+		"m/+7/2147483647H":  {7, 0x7fffffff + Hardened},
+		"m/-0/000":          {0, 0},
+	}
+	for s, want := range good {
+		got, err := ParsePath(s)
+		if err != nil || len(got) != len(want) {
+			t.Errorf("ParsePath(%q) = %v, %v", s, got, err)
+			continue
+		}
+		for i := range got {
+			if got[i] != want[i] {
+				t.Errorf("ParsePath(%q) = %v, want %v", s, got, want)
+			}
+		}
+	}
+	for _, s := range []string{"", "M/0", "/m/0", "m/", "m//0", "m/0/", "m/ 1", "m/1 ", "m/0x10", "m/0o17", "m/0b11", "m/1_0", "m/1e3", "m/-1",
+		"m/2147483648", "m/4294967296", "m/2147483648'", "m/5''", "m/'", "m/h", "m/1'0", "m/1.0", "n/0", "m/٣"} {
+		if p, err := ParsePath(s); err == nil {
+			t.Errorf("ParsePath(%q) = %v, expected an error", s, p)
+		}
+	}
+}
